@@ -3,9 +3,7 @@
 // view::slice / view::apply_slice. Kernels only marshal: every (start,stop,step) None/int pattern is its own instantiation.
 #include "common.hpp"
 #include "nmtools/array/index/slice.hpp"
-#include "nmtools/array/view/slice.hpp"
-namespace view = nm::view;
-using nm::None; using nm::Ellipsis;
+#include "C05_common.hpp"
 using sh1_t = std::array<size_t,1>; using sh2_t = std::array<size_t,2>; using sh3_t = std::array<size_t,3>;
 
 // ---- one axis, packed: the 8 three-part patterns and the 4 two-part patterns (n = None, i = int) ----
@@ -79,66 +77,3 @@ DPAT1(nii, None, stop, step)
 DPAT1(iii, start, stop, step)
 DPAT1(ni, None, stop)
 
-// ---- 2 and 3 axes, packed: families of integers (i), full slices (s = tuple{int,int,int}) and one ellipsis (e) ----
-// p holds one (start,stop,step) triple per item; an integer item uses the first entry of its triple
-#define S(j) nmtools_tuple{p[3*(j)],p[3*(j)+1],p[3*(j)+2]}
-#define I(j) p[3*(j)]
-#define E Ellipsis
-#define FAMS(NAME, DIM, ...) \
-KERNEL size_t K(k_fshape##DIM##_##NAME)(const size_t* shape, const int* p, size_t* out){ \
-  auto sh = mk_arr<size_t,DIM>(shape); auto r = ix::shape_slice(sh, __VA_ARGS__); return put(r,out); }
-#define FAM(NAME, DIM, ODIM, ...) FAMS(NAME, DIM, __VA_ARGS__) \
-KERNEL size_t K(k_findex##DIM##_##NAME)(const size_t* shape, const int* p, const size_t* idx, size_t* out){ \
-  auto sh = mk_arr<size_t,DIM>(shape); auto r = ix::slice(mk_arr<size_t,ODIM>(idx), sh, __VA_ARGS__); return put(r,out); }
-FAM(e,   2, 2, E)
-FAM(es,  2, 2, E, S(1))
-FAM(se,  2, 2, S(0), E)
-FAM(ei,  2, 1, E, I(1))
-FAM(ie,  2, 1, I(0), E)
-FAM(is,  2, 1, I(0), S(1))
-FAM(si,  2, 1, S(0), I(1))
-FAM(ss,  2, 2, S(0), S(1))
-FAM(ses, 2, 2, S(0), E, S(2))
-FAMS(ii, 2, I(0), I(1))
-FAM(e,   3, 3, E)
-FAM(se,  3, 3, S(0), E)
-FAM(es,  3, 3, E, S(1))
-FAM(ses, 3, 3, S(0), E, S(2))
-FAM(ie,  3, 2, I(0), E)
-FAM(ei,  3, 2, E, I(1))
-FAM(ies, 3, 2, I(0), E, S(2))
-FAM(sei, 3, 2, S(0), E, I(2))
-FAM(iei, 3, 1, I(0), E, I(2))
-FAM(ess, 3, 3, E, S(1), S(2))
-FAM(sse, 3, 3, S(0), S(1), E)
-FAM(sis, 3, 2, S(0), I(1), S(2))
-FAM(isi, 3, 1, I(0), S(1), I(2))
-FAM(iis, 3, 1, I(0), I(1), S(2))
-FAM(sss, 3, 3, S(0), S(1), S(2))
-FAM(sess,3, 3, S(0), E, S(2), S(3))
-#undef S
-#undef I
-#undef E
-
-// ---- 2 and 3 axes, dynamic: ONE instantiation per dim; the kind of every item is a run-time value (0 int, 1 array<int,3>, 2 ellipsis) ----
-using d_inner_t = nmtools_either<nmtools_array<int,3>, nm::ellipsis_t>;
-using d_slice_t = nmtools_either<int, d_inner_t>;
-template <typename L> static inline void mk_dslices(L& sl, const int* kinds, const int* p, size_t ns){
-  for (size_t i=0;i<ns;i++){
-    if (kinds[i]==0) sl.push_back(d_slice_t{p[3*i]});
-    else if (kinds[i]==1) sl.push_back(d_slice_t{d_inner_t{nmtools_array<int,3>{p[3*i],p[3*i+1],p[3*i+2]}}});
-    else sl.push_back(d_slice_t{d_inner_t{Ellipsis}});
-  }
-}
-#define DYN(DIM, SFX, LIST) \
-KERNEL size_t K(k_dynshape##DIM##SFX)(const size_t* shape, const int* kinds, const int* p, size_t ns, size_t* out){ \
-  auto sh = mk_arr<size_t,DIM>(shape); LIST sl; mk_dslices(sl,kinds,p,ns); \
-  auto r = ix::shape_dynamic_slice(sh, sl); return put(r,out); } \
-KERNEL size_t K(k_dynindex##DIM##SFX)(const size_t* shape, const int* kinds, const int* p, size_t ns, const size_t* idx, size_t nidx, size_t* out){ \
-  auto sh = mk_arr<size_t,DIM>(shape); LIST sl; mk_dslices(sl,kinds,p,ns); \
-  auto r = ix::dynamic_slice(mk_sv<size_t,4>(idx,nidx), sh, sl); return put(r,out); }
-using d_sv_t = utl::static_vector<d_slice_t,4>;
-DYN(2,,nmtools_list<d_slice_t>)
-DYN(3,,nmtools_list<d_slice_t>)
-DYN(2,_sv,d_sv_t)
-DYN(3,_sv,d_sv_t)
